@@ -27,9 +27,9 @@ def regen(ctx):
 
 
 SPEC = {
-    "lean_props": ["Hive.Props.C07", "Hive.Props.C07b", "Hive.Props.C07c", "Hive.Props.C07d", "Hive.Props.C07e"],
+    "lean_props": ["Hive.Props.C07", "Hive.Props.C07b", "Hive.Props.C07c", "Hive.Props.C07d", "Hive.Props.C07e", "Hive.Props.C07f"],
     "regen": regen,
-    "lean_namespace": ["Hive.Seq", "Hive.Seq.Conc", "Hive.Seq.Layered", "Hive.Seq.Go"],
+    "lean_namespace": ["Hive.Seq", "Hive.Seq.Conc", "Hive.Seq.Layered", "Hive.Seq.Go", "Hive.Seq.Multi"],
     "driver": "drv_c07",
     "harness": "c07",
     "theorems": ["C07_strictly_increasing", "C07_release_wastes_none", "C07_crash_wastes_le_interval",
@@ -43,7 +43,9 @@ SPEC = {
                  "C07_layered_refines_sequential", "C07_no_reuse_over_faithful_store", "C07_waste_over_faithful_store",
                  "C07_store_contract_plain", "C07_store_contract_flushkv", "C07_unfaithful_store_witness",
                  # the sequential model derived from the source (Hive/Props/C07d.lean): the functions of sequence.go, translated on every run, interpreted in Lean
-                 "C07_generated_supported", "C07_generated_new", "C07_generated_next", "C07_generated_release", "C07_generated_crash_points", "C07_generated_applies_to_reachable"],
+                 "C07_generated_supported", "C07_generated_new", "C07_generated_next", "C07_generated_release", "C07_generated_crash_points", "C07_generated_applies_to_reachable",
+                 # several sequences with different keys over one store (Hive/Props/C07f.lean, model Hive/Model/SeqMulti.lean): a product of independent sequences
+                 "C07_sequences_independent", "C07_requests_on_different_keys_commute", "C07_per_key_strictly_increasing", "C07_per_key_waste", "C07_shared_buffer_witness"],
     "trusted_base": ["hand-written model Hive/Model/Seq.lean of kvstore/sequence.go, tied by differential execution (harness/c07) and - for the calls NewSequence / Next / Release incl. failing store calls - PROVED equal to the interpretation of the source: harness/c07/srcgen translates sequence.go (go/ast) into terms of the small imperative language of Hive/Model/SeqGo.lean on every run, C07_generated_* prove that the interpreted terms compute the model's steps; trusted there: the translator (~300 lines of Go) and the interpreter's semantics of the language (wrapping uint64 arithmetic, early return, tagless switch); crash points are boundaries between the store calls of these functions (skeleton obligations)",
                      "hand-written protocol model Hive/Model/SeqConc.lean (micro-steps of Next/update/Release under seq.Mutex), tied by the regenerated lock/store-call skeletons and by recorded concurrent histories judged with the theorems' trace predicate ('chist' requests)",
                      "Go toolchain, compiled Lean driver"],
